@@ -2,8 +2,10 @@
 
 * config trees generated from the live JSON schema of the assembled settings model,
 * the spellings of one tree as YAML / JSON / TOML text, `-o` options, environment variables, `.env` file,
+* the lexical styles of each file format (`STYLES`, `styled`): one document written down in many ways, each checked with the
+  format's own decoder to decode to exactly the tree,
 * adapters that run the real code (`API.configure`, the click command with a recording stand-in for the API,
-  parse/generate sequences) and classify how the call ended,
+  parse/generate sequences, request histories on one `API` object) and classify how the call ended,
 * a fork-based worker pool (every real run happens in a child process with its own scratch directory,
   environment and working directory).
 """
@@ -103,7 +105,7 @@ def all_keys() -> list[str]:
 # candidate texts for pattern-constrained strings (filtered per pattern with re.fullmatch)
 _PATTERN_POOL = ["a::b", "::x1::y_2", "ns::inner::deep", "a.b.c", "my.pkg_name.sub1", "org.x.y1", "@Foo", "@my.pkg.Ann", "Foo",
                  "java.lang.RuntimeException", "my.pkg.Err", "E1", "x", "abc"]
-_WORDS = ["out", "gen", "src", "include", "x1", "lib_a", "deep/dir", "a-b", "My Dir", "v=1", "p:q", "UPPER", "tmp.d", "_u_", "k__k"]
+_WORDS = ["out", "gen", "src", "include", "x1", "lib_a", "deep/dir", "a-b", "My Dir", "v=1", "p:q", "UPPER", "tmp.d", "_u_", "k__k", "d\u00efr\U0001F4C1"]
 
 
 # Edge texts for settings that are *free text* in the schema (type string without pattern / format / enumeration: prefixes,
@@ -112,7 +114,8 @@ _WORDS = ["out", "gen", "src", "include", "x1", "lib_a", "deep/dir", "a-b", "My 
 # and texts that contain the separators of the spellings ('=', '.', '__', '[', ']', ',', quotes, '#', ':').
 EDGE_TEXTS = ["", " ", "  x ", "\t", "null", "None", "~", "true", "False", "on", "0", "1", "-1", "1.5", "1e3", "0x10", "{}", "[]",
               "{\"a\": 1}", "[1]", "[a,b]", "\"\"", "\"q\"", "''", "it's", "a=b", "=", "a.b", ".", "a__b", "__", "_", "[x", "x]", "a,b", ",",
-              "#c", "x #c", "a: b", "- a", "$HOME", "%d", "a\\nb", "é", "PyDjinni__x", "a\nb"]
+              "#c", "x #c", "a: b", "- a", "$HOME", "%d", "a\\nb", "é", "PyDjinni__x", "a\nb",
+              "\U0001F600", "a\u20ac\U0001F4C1b"]
 
 
 def is_free_text(node: dict) -> bool:
@@ -424,9 +427,267 @@ def to_toml(tree) -> str:
     return tomli_w.dumps(tree)
 
 
+# --------------------------------------------------------------------------------------------
+# lexical styles: the many ways in which ONE document is written down in each file format
+# --------------------------------------------------------------------------------------------
+# A file format is a language, not one serialiser's output: indentation (spaces, tabs, none), compact / spaced separators, escaped
+# or literal non-ASCII and non-BMP characters, key order, line ends, comments, flow / block collections, quoting styles, inline
+# tables / dotted keys. Every styled text is checked by the harness itself to decode — with the format's own decoder, an assumed
+# component — to exactly the tree it was written from (`styled` returns None otherwise), so all of them spell the same settings.
+
+def _reorder(x, order: str):
+    if isinstance(x, dict):
+        ks = list(x)
+        if order == "sorted":
+            ks = sorted(ks)
+        elif order == "reversed":
+            ks = ks[::-1]
+        return {k: _reorder(x[k], order) for k in ks}
+    if isinstance(x, list):
+        return [_reorder(v, order) for v in x]
+    return x
+
+
+def _u_escape(o: int) -> str:
+    if o > 0xFFFF:
+        o -= 0x10000
+        return "\\u%04x\\u%04x" % (0xD800 + (o >> 10), 0xDC00 + (o & 0x3FF))
+    return "\\u%04x" % o
+
+
+def _json_str(s: str, esc: str) -> str:
+    out = ['"']
+    for ch in s:
+        o = ord(ch)
+        if esc == "all" or o < 0x20 or (esc in ("ascii", "ASCII") and o > 0x7E):
+            e = _u_escape(o)
+            out.append(e.upper().replace("\\U", "\\u") if esc == "ASCII" else e)
+        elif ch in '"\\':
+            out.append("\\" + ch)
+        elif ch == "/" and esc == "all":
+            out.append("\\/")
+        else:
+            out.append(ch)
+    return "".join(out) + '"'
+
+
+def _json_write(x, indent, item_sep, key_sep, esc, nl, level=0) -> str:
+    if isinstance(x, dict) or isinstance(x, list):
+        items = ([_json_str(k, esc) + key_sep + _json_write(v, indent, item_sep, key_sep, esc, nl, level + 1) for k, v in x.items()]
+                 if isinstance(x, dict) else [_json_write(v, indent, item_sep, key_sep, esc, nl, level + 1) for v in x])
+        o, c = "{}" if isinstance(x, dict) else "[]"
+        if not items:
+            return o + c
+        if indent is None:
+            return o + item_sep.join(items) + c
+        pad = nl + indent * (level + 1)
+        return o + pad + ("," + pad).join(items) + nl + indent * level + c
+    if isinstance(x, str):
+        return _json_str(x, esc)
+    return json.dumps(x)
+
+
+JSON_STYLES = {
+    "compact": dict(indent=None, item_sep=",", key_sep=":"),
+    "one-line": dict(indent=None),
+    "indent-2": dict(indent="  "),
+    "indent-4-literal": dict(indent="    ", esc="literal", trail="\n"),
+    "indent-tab": dict(indent="\t"),
+    "indent-tab-literal": dict(indent="\t", esc="literal", trail="\n"),
+    "indent-mixed": dict(indent=" \t"),
+    "lines-only": dict(indent=""),
+    "escaped-upper": dict(indent=" ", esc="ASCII"),
+    "escape-every-character": dict(indent="  ", esc="all"),
+    "sorted-keys": dict(indent=" ", order="sorted", trail="\n"),
+    "reversed-keys": dict(indent=None, order="reversed", esc="literal"),
+    "crlf": dict(indent="  ", nl="\r\n", trail="\r\n"),
+    "padded": dict(indent=None, lead=" \n\t\r\n", trail=" \n\n\t"),
+    "wide-separators": dict(indent=None, item_sep=" ,\t", key_sep=" :\n "),
+}
+
+
+def json_styled(tree, style: str) -> str:
+    p = JSON_STYLES[style]
+    text = _json_write(_reorder(tree, p.get("order", "")), p.get("indent"), p.get("item_sep", ", "), p.get("key_sep", ": "),
+                       p.get("esc", "ascii"), p.get("nl", "\n"))
+    return p.get("lead", "") + text + p.get("trail", "")
+
+
+YAML_STYLES = {
+    "block": dict(),
+    "block-indent-4": dict(indent=4),
+    "block-indent-8-unicode": dict(indent=8, allow_unicode=True),
+    "flow": dict(default_flow_style=True),
+    "flow-one-line-unicode": dict(default_flow_style=True, width=1000000, allow_unicode=True),
+    "flow-leaves": dict(default_flow_style=None),
+    "unicode": dict(allow_unicode=True),
+    "double-quoted": dict(default_style='"'),
+    "single-quoted-unicode": dict(default_style="'", allow_unicode=True),
+    "document-markers": dict(explicit_start=True, explicit_end=True),
+    "sorted-keys": dict(sort_keys=True),
+    "narrow": dict(width=12),
+    "crlf": dict(line_break="\r\n"),
+    "canonical": dict(canonical=True),
+    "commented": dict(allow_unicode=True, post="comments"),
+    "json-text": dict(post="json"),
+    "json-text-tab-indented-literal": dict(post="json-literal"),
+}
+
+
+def yaml_styled(tree, style: str) -> str:
+    import yaml
+    p = dict(YAML_STYLES[style])
+    post = p.pop("post", None)
+    if post == "json":          # flow collections with double-quoted scalars: a JSON text that stays on the YAML side of the languages
+        return json.dumps(tree, indent=1)
+    if post == "json-literal":
+        return json.dumps(tree, ensure_ascii=False)
+    p.setdefault("sort_keys", False)
+    text = yaml.safe_dump(tree, **p)
+    if post == "comments":
+        lines = text.split("\n")
+        text = "# settings\n%YAML 1.1\n---\n" + "\n".join(l + ("   # c" if l.endswith(":") else "") for l in lines) + "\n\n# end\n"
+    return text
+
+
+def _toml_key(k: str, quote: str) -> str:
+    if quote == "bare" and re.fullmatch(r"[A-Za-z0-9_-]+", k):
+        return k
+    if quote == "literal" and "'" not in k and "\n" not in k:
+        return "'" + k + "'"
+    return _toml_str(k, "basic")
+
+
+def _toml_str(s: str, how: str) -> str:
+    if how == "literal" and "'" not in s and not any(ord(c) < 0x20 and c != "\t" or ord(c) == 0x7F for c in s):
+        return "'" + s + "'"
+    if how == "multiline" and not any(ord(c) < 0x20 and c not in "\t\n" or ord(c) == 0x7F for c in s) and "'''" not in s and not s.endswith("'"):
+        return "'''\n" + s + "'''"
+    out = ['"']
+    for ch in s:
+        o = ord(ch)
+        if ch in '"\\':
+            out.append("\\" + ch)
+        elif o < 0x20 or o == 0x7F or (how == "escaped" and o > 0x7E):
+            out.append({"\n": "\\n", "\t": "\\t", "\r": "\\r"}.get(ch) if ch in "\n\t\r" and how != "escaped" else
+                       ("\\U%08x" % o if o > 0xFFFF else "\\u%04x" % o))
+        else:
+            out.append(ch)
+    return "".join(out) + '"'
+
+
+def _toml_val(v, p) -> str:
+    if isinstance(v, bool):
+        return "true" if v else "false"
+    if isinstance(v, int):
+        return str(v)
+    if isinstance(v, float):
+        return repr(v)
+    if isinstance(v, str):
+        return _toml_str(v, p.get("strings", "basic"))
+    if isinstance(v, list):
+        items = [_toml_val(x, p) for x in v]
+        if p.get("arrays") == "multiline" and items:
+            return "[\n" + "".join(f"\t{i},  # item\n" for i in items) + "]"
+        return "[" + ", ".join(items) + "]"
+    if isinstance(v, dict):
+        if not v:
+            return "{}"
+        return "{ " + ", ".join(_toml_key(k, p.get("keys", "bare")) + " = " + _toml_val(x, p) for k, x in v.items()) + " }"
+    raise ValueError(f"no TOML spelling for {v!r}")
+
+
+TOML_STYLES = {
+    "tables": dict(layout="lib"),
+    "tables-multiline-strings": dict(layout="lib", multiline=True),
+    "dotted-keys": dict(layout="dotted"),
+    "dotted-keys-literal-strings": dict(layout="dotted", strings="literal", keys="literal"),
+    "inline-tables": dict(layout="inline"),
+    "inline-tables-escaped": dict(layout="inline", strings="escaped", keys="basic"),
+    "headers": dict(layout="headers", arrays="multiline"),
+    "headers-quoted-keys-crlf": dict(layout="headers", keys="basic", strings="escaped", nl="\r\n"),
+    "headers-dotted-below": dict(layout="headers1", strings="literal"),
+    "headers-commented-multiline": dict(layout="headers", strings="multiline", comments=True),
+}
+
+
+def toml_styled(tree, style: str) -> str:
+    p = TOML_STYLES[style]
+    lay = p["layout"]
+    kq = p.get("keys", "bare")
+    if lay == "lib":
+        import tomli_w
+        return tomli_w.dumps(tree, multiline_strings=bool(p.get("multiline")))
+    lines = []
+    if p.get("comments"):
+        lines.append("# settings")
+    if lay == "dotted":
+        for path, v in leaves(tree):
+            lines.append(".".join(_toml_key(k, kq) for k in path) + " = " + _toml_val(v, p))
+    elif lay == "inline":
+        for k, v in tree.items():
+            lines.append(_toml_key(k, kq) + " = " + _toml_val(v, p))
+    else:
+        depth = 1 if lay == "headers1" else 99
+
+        def table(path, d, level):
+            scal = [(k, v) for k, v in d.items() if not isinstance(v, dict)]
+            subs = [(k, v) for k, v in d.items() if isinstance(v, dict)]
+            if level >= depth:
+                scal = leaves(d)
+                scal = [(".".join(_toml_key(x, kq) for x in pth), v) for pth, v in scal]
+                subs = []
+            else:
+                scal = [(_toml_key(k, kq), v) for k, v in scal]
+            if path and (scal or not subs):
+                lines.append(("" if not lines else "\n") + "[" + " . ".join(_toml_key(k, kq) for k in path) + "]" + ("  # table" if p.get("comments") else ""))
+            for k, v in scal:
+                lines.append(("  " if path else "") + k + " = " + _toml_val(v, p) + ("   # value" if p.get("comments") else ""))
+            for k, v in subs:
+                table(path + (k,), v, level + 1)
+        table((), tree, 0)
+    return p.get("nl", "\n").join("\n".join(lines).split("\n")) + p.get("nl", "\n")
+
+
+STYLES = {"yaml": YAML_STYLES, "yml": YAML_STYLES, "json": JSON_STYLES, "toml": TOML_STYLES}
+
+
+def decode_text(fmt: str, text: str):
+    """the format's own decoder (assumed component), on the bytes of the file"""
+    data = text.encode("utf-8")
+    if fmt in ("yaml", "yml"):
+        import yaml
+        return yaml.safe_load(data)
+    if fmt == "json":
+        return json.loads(data)
+    import tomllib
+    return tomllib.loads(data.decode("utf-8"))
+
+
+def styled(tree: dict, fmt: str, style: str) -> str | None:
+    """`tree` written in file format `fmt` in the lexical style `style`; None when the style cannot express this tree (checked
+    with the format's own decoder: the text decodes to exactly `tree`, same keys, same values, same value types)"""
+    try:
+        text = {"yaml": yaml_styled, "yml": yaml_styled, "json": json_styled, "toml": toml_styled}[fmt](tree, style)
+        doc = decode_text(fmt, text)
+    except Exception:  # noqa
+        return None
+    return text if canon_typed(doc) == canon_typed(tree) else None
+
+
+def canon_typed(x):
+    """canonical text that keeps bool / int / float / str apart and ignores dict order"""
+    if isinstance(x, dict):
+        return "{" + ",".join(json.dumps(k, ensure_ascii=False) + ":" + canon_typed(x[k]) for k in sorted(x)) + "}"
+    if isinstance(x, list):
+        return "[" + ",".join(canon_typed(v) for v in x) + "]"
+    return type(x).__name__ + ":" + (json.dumps(x, ensure_ascii=False) if isinstance(x, (str, int, float, bool)) or x is None else repr(x))
+
+
 def canon(x):
-    """canonical JSON text of an observation (dict order is irrelevant)"""
-    return json.dumps(x, sort_keys=True, default=str)
+    """canonical JSON text of an observation (dict order is irrelevant). Characters are kept as they are: escaped, a character
+    outside the BMP and the two lone surrogates a careless decoder makes of its escape would look the same"""
+    return json.dumps(x, sort_keys=True, default=str, ensure_ascii=False)
 
 
 # --------------------------------------------------------------------------------------------
@@ -458,12 +719,22 @@ def classify(e: BaseException) -> dict:
             site = f"{Path(fr.filename).name}:{fr.name}"
             break
     if isinstance(e, ApplicationException) and getattr(e, "code", None):
-        return {"kind": "app", "code": e.code, "cls": type(e).__name__, "msg": str(e)[:300]}
+        return {"kind": "app", "code": e.code, "cls": type(e).__name__, **message_of(e)}
     if isinstance(e, ApplicationExceptionList):
         codes = [getattr(i, "code", None) for i in e.items]
+        ms = [message_of(i) for i in e.items]
+        bad = next((m["unprintable"] for m in ms if "unprintable" in m), None)
         return {"kind": "applist", "codes": codes, "code": codes[0] if codes else None, "cls": type(e).__name__,
-                "msg": "; ".join(str(i) for i in e.items)[:300]}
-    return {"kind": "crash", "cls": type(e).__name__, "site": site, "msg": str(e)[:300]}
+                "msg": "; ".join(m["msg"] for m in ms)[:300], **({"unprintable": bad} if bad else {})}
+    return {"kind": "crash", "cls": type(e).__name__, "site": site, "msg": message_of(e)["msg"]}
+
+
+def message_of(e: BaseException) -> dict:
+    """{'msg'} — the text of a diagnostic as `main()` / a caller would print it; {'msg', 'unprintable': class} when rendering it fails"""
+    try:
+        return {"msg": str(e)[:300]}
+    except BaseException as x:  # noqa
+        return {"msg": f"<the diagnostic cannot be rendered: {type(x).__name__}: {str(x)[:150]}>", "unprintable": type(x).__name__}
 
 
 class _Captured(Exception):
@@ -670,7 +941,81 @@ def run_ready(base: Path, case: dict) -> dict:
     return out
 
 
-_FUNCS = {"configure": run_configure, "validate": lambda b, c: validate_tree(b, c["tree"]), "ready": run_ready}
+def context_options(sections, i: int) -> dict:
+    """the settings of context `i` of a history: the smallest valid section for every generator key given, each with its output
+    below `out/c<i>/`, so that what a `generate` wrote tells whose settings the generators worked with"""
+    if sections is None:
+        return {"build": {"conan": {}}}
+    mins = minimal_sections()
+    gen = {"support_lib_sources": False}
+    for g in sections:
+        sec = copy.deepcopy(mins[g])
+        sec["out"] = f"out/c{i}/{g}"
+        gen[g] = sec
+    return {"generate": gen}
+
+
+def run_history(base: Path, case: dict) -> dict:
+    """ONE `API` object, several configured contexts, a sequence of requests on them:
+    ["configure", c] the context is made anew from the same settings; ["parse", c]; ["generate", c, target, clean] on the
+    `GenerateContext` the last successful parse of context c returned (skipped when there is none).
+    Observation per step: how it ended, and for `generate` the contexts below whose output directories files were written."""
+    warnings.filterwarnings("ignore")
+    api = _api(fresh=True)
+    work = base / "history"
+    shutil.rmtree(work, ignore_errors=True)
+    work.mkdir(parents=True)
+    cwd = os.getcwd()
+    os.chdir(work)
+    out = {"configure": [], "steps": []}
+    try:
+        (work / "in.djinni").write_text(IDLS[case["idl"]][0])
+        options = [context_options(secs, i) for i, secs in enumerate(case["contexts"])]
+        contexts, gen = [], {}
+        for o in options:
+            try:
+                contexts.append(api.configure(options=copy.deepcopy(o)))
+                out["configure"].append({"kind": "ok"})
+            except BaseException as e:  # noqa
+                contexts.append(None)
+                out["configure"].append(classify(e))
+        if any(c is None for c in contexts):
+            return out
+        for st in case["steps"]:
+            op, c = st[0], st[1]
+            if op == "configure":
+                try:
+                    contexts[c] = api.configure(options=copy.deepcopy(options[c]))
+                    gen.pop(c, None)
+                    out["steps"].append({"kind": "ok"})
+                except BaseException as e:  # noqa
+                    out["steps"].append(classify(e))
+            elif op == "parse":
+                try:
+                    gen[c] = contexts[c].parse("in.djinni")
+                    out["steps"].append({"kind": "ok"})
+                except BaseException as e:  # noqa
+                    out["steps"].append(classify(e))
+            else:
+                if c not in gen:
+                    out["steps"].append({"kind": "skipped"})
+                    continue
+                shutil.rmtree(work / "out", ignore_errors=True)
+                try:
+                    gen[c].generate(st[2], clean=bool(st[3]) if len(st) > 3 else False)
+                    o = {"kind": "ok"}
+                except BaseException as e:  # noqa
+                    o = classify(e)
+                o["wrote"] = sorted({int(p.relative_to(work / "out").parts[0][1:]) for p in (work / "out").rglob("*")
+                                     if p.is_file() and p.relative_to(work / "out").parts[0][1:].isdigit()}) if (work / "out").exists() else []
+                out["steps"].append(o)
+    finally:
+        os.chdir(cwd)
+        shutil.rmtree(work, ignore_errors=True)
+    return out
+
+
+_FUNCS = {"configure": run_configure, "validate": lambda b, c: validate_tree(b, c["tree"]), "ready": run_ready, "history": run_history}
 
 
 def _worker(arg):
